@@ -19,6 +19,9 @@ import (
 	"github.com/formancehq/stack/libs/go-libs/auth"
 	"github.com/formancehq/stack/libs/go-libs/health"
 	"github.com/go-chi/chi/v5"
+	"go.uber.org/fx"
+
+	"github.com/formancehq/ledger/internal/api/backend"
 )
 
 func init() { checks["C19"] = c19 }
@@ -30,6 +33,28 @@ const bulkAll = `[{"action":"CREATE_TRANSACTION","data":{"postings":[{"source":"
 
 func newRouter(b *recbackend.Backend, readOnly bool) chi.Router {
 	return api.NewRouter(b, health.NewHealthController(nil), metrics.NewNoOpRegistry(), auth.NewNoAuth(), readOnly)
+}
+
+// wiredRouter builds the router the way the server does: through api.Module(api.Config{ReadOnly: ...}) in an fx
+// application (the recording backend replaces the one the module would build from the storage driver). A module that
+// drops, inverts or mis-threads the flag is seen here and not by newRouter.
+func wiredRouter(b *recbackend.Backend, readOnly bool) (r chi.Router, err error) {
+	defer func() {
+		if e := recover(); e != nil {
+			err = fmt.Errorf("panic: %v", e)
+		}
+	}()
+	app := fx.New(fx.NopLogger,
+		api.Module(api.Config{Version: "verif", ReadOnly: readOnly}),
+		fx.Supply(fx.Annotate(auth.NewNoAuth(), fx.As(new(auth.Auth)))),
+		fx.Provide(func() metrics.GlobalRegistry { return metrics.NewNoOpRegistry() }),
+		fx.Decorate(func() backend.Backend { return b }),
+		fx.Populate(&r),
+	)
+	if app.Err() != nil {
+		return nil, app.Err()
+	}
+	return r, nil
 }
 
 func c19() int {
@@ -187,7 +212,60 @@ func c19() int {
 			}
 		}
 	})
+	// the same routes through the router as the server wires it (api.Module): a reduced request set (no header / query axis)
+	var wiredRequests int64
+	wiredReached := evid.NewHistogram()
+	wiredErr := ""
+	for _, ro := range []bool{true, false} {
+		b := recbackend.New("l1", "_")
+		b.AnyLedger = true
+		router, err := wiredRouter(b, ro)
+		if err != nil {
+			wiredErr = err.Error()
+			break
+		}
+		for _, path := range upaths {
+			for _, m := range methods {
+				for _, body := range bodies {
+					b.Reset()
+					var req *http.Request
+					func() {
+						defer func() {
+							if recover() != nil {
+								req = nil
+							}
+						}()
+						req = httptest.NewRequest(m, path, strings.NewReader(body)).WithContext(engineh.QuietCtx())
+					}()
+					if req == nil {
+						continue
+					}
+					rec := httptest.NewRecorder()
+					func() {
+						defer func() { _ = recover() }()
+						router.ServeHTTP(rec, req)
+					}()
+					wiredRequests++
+					wc := b.WriteCalls()
+					if ro && len(wc) > 0 {
+						rep.Violation("write-in-read-only-wired:"+m+" "+patternOf(path), fmt.Sprintf("server wired by api.Module(Config{ReadOnly:true}) executed %v for %s %s", wc, m, path), map[string]interface{}{"engine": "httpenum", "wired": true, "method": m, "path": path, "body": body})
+					}
+					if !ro {
+						for _, c := range wc {
+							wiredReached.Add(c.Method)
+						}
+					}
+				}
+			}
+		}
+	}
+	if wiredErr != "" {
+		rep.Undecide("the fx application around api.Module could not be built: " + wiredErr)
+	}
 	for m := range recbackend.WriteMethods {
+		if wiredErr == "" && wiredReached.M[m] == 0 {
+			rep.Undecide("non-vacuity (wired router): the request set never reaches " + m + " when the module is not read-only")
+		}
 		if reached.M[m] == 0 {
 			rep.Undecide("non-vacuity: the request set never reaches " + m + " even when the server is not read-only")
 		}
@@ -202,6 +280,8 @@ func c19() int {
 		"write_methods_reached_when_not_read_only": reached.M,
 		"read_only_status_histogram":               statusRO.M,
 		"handler_panics_recovered":                 int(panics),
+		"wired_router_requests":                    int(wiredRequests),
+		"wired_router_write_methods_reached_when_not_read_only": wiredReached.M,
 	}
 	rep.Assume = []string{"requests are delivered with net/http/httptest straight to the router (no reverse proxy rewriting methods)", "auth is the no-op implementation"}
 	return rep.Finish(cov)
